@@ -167,7 +167,7 @@ def main(ctx: Ctx):
     for i in range(n):
         if i % 2:
             M = random_mtl(ctx.rng, heads_disjoint=True)
-            while M.nested_features() or M.unused_features():
+            while M.nested_features() or M.unused_features() or M.multi_output_features():
                 M = random_mtl(ctx.rng, heads_disjoint=True)
             P = M.P
         else:
